@@ -19,6 +19,7 @@ var Rigs = map[string]sim.Rig{
 	"C13": {Name: "fcgi", Run: runFcgi("C13")},
 	"C19f": {Name: "fcgi", Run: runFcgi("C19")},
 	"C19s": {Name: "site", Run: runSite("C19")},
+	"C19h": {Name: "h2push", Run: runH2Push},
 	"C12": {Name: "site", Run: runSite("C12")},
 	"C18": {Name: "site", Run: runSite("C18")},
 	"C20": {Name: "site", Run: runSite("C20")},
@@ -35,7 +36,7 @@ func runC19(c *sim.Ctl) {
 	subs := []struct {
 		name string
 		f    sim.RigFunc
-	}{{"tls-clienthello+user-agent", runTLSHello}, {"fastcgi-responder-output", runFcgi("C19")}, {"request-text(placeholders,cookies,paths,auth)", runSite("C19")}}
+	}{{"tls-clienthello+user-agent", runTLSHello}, {"fastcgi-responder-output", runFcgi("C19")}, {"request-text(placeholders,cookies,paths,auth)", runSite("C19")}, {"http2-link-headers(push)", runH2Push}}
 	i := c.T.Stream("sub").Draw(len(subs))
 	c.Params["surface"] = subs[i].name
 	subs[i].f(c)
